@@ -28,6 +28,10 @@ const tick = 100 * time.Microsecond
 
 var base = time.Unix(1_000_000, 0)
 
+// zeroTime as an opSpec.Dt: the item's ScheduledTime is the zero time.Time; the traces carry it as an instant far in the
+// past (-1e9 ticks)
+const zeroTime = -1_000_000_000
+
 type item struct {
 	id  int
 	key string
@@ -80,6 +84,11 @@ func (r *recorder) ev(name string, m tv.M) {
 func (r *recorder) hook(point string, args []any) {
 	r.mu.Lock()
 	defer r.mu.Unlock()
+	// the commit window of the loop (see TraceProc.tla): it closes when the loop arrives at the point after its pop, or
+	// back at the top of the loop
+	if point == "queue.exec.popped" || point == "queue.loop.peeked" {
+		r.b.Ev("w_close", tv.M{})
+	}
 	if r.hb == nil {
 		return
 	}
@@ -156,9 +165,13 @@ func runSchedule(b, hb *tv.Batch, prog program, seed int64, force []string) resu
 				nextID++
 				it := &item{id: nextID, key: o.Key, at: clk.Now().Add(time.Duration(o.Dt) * tick)}
 				atTicks := int(it.at.Sub(base) / tick)
-				if o.Dt < 0 { // "never": a far-future scheduled time (year 9999), as callers use to park an item
+				switch {
+				case o.Dt == -1: // "never": a far-future scheduled time (year 9999), as callers use to park an item
 					it.at = time.Date(9999, 12, 31, 0, 0, 0, 0, time.UTC)
 					atTicks = 2_000_000_000
+				case o.Dt == zeroTime: // the zero time.Time
+					it.at = time.Time{}
+					atTicks = zeroTime
 				}
 				idmu.Unlock()
 				rec.ev("enq_call", tv.M{"id": it.id, "key": it.key, "at": atTicks, "c": ci + 1})
@@ -186,6 +199,13 @@ func runSchedule(b, hb *tv.Batch, prog program, seed int64, force []string) resu
 		}
 	}
 	d := &sched.Driver{C: ctl, Rng: rng, MaxSteps: 400}
+	d.OnRelease = func(point string) {
+		if point == "queue.exec.enter" { // the loop passes the entry of execute(): from now on it may pop
+			rec.mu.Lock()
+			rec.b.Ev("w_open", tv.M{})
+			rec.mu.Unlock()
+		}
+	}
 	d.AtQuiescence = func(parked []*sched.Parked, s sched.Snapshot) {
 		if len(parked) == 0 && inflight() == 0 {
 			rec.ev("quiescent", tv.M{"now": nowTicks()})
@@ -236,7 +256,7 @@ func runSchedule(b, hb *tv.Batch, prog program, seed int64, force []string) resu
 		// final phase: move the clock past every deadline and let everything drain
 		rec.ev("adv", tv.M{"now": nowTicks() + 26*36_000_000})
 		clk.Step(26 * 36_000_000 * tick)
-		d2 := &sched.Driver{C: ctl, Rng: rng, MaxSteps: 400, AtQuiescence: d.AtQuiescence}
+		d2 := &sched.Driver{C: ctl, Rng: rng, MaxSteps: 400, AtQuiescence: d.AtQuiescence, OnRelease: d.OnRelease}
 		err = d2.Run()
 		d.Log = append(d.Log, d2.Log...)
 	}
@@ -267,7 +287,7 @@ func runSchedule(b, hb *tv.Batch, prog program, seed int64, force []string) resu
 
 func genProgram(rng *rand.Rand) program {
 	keys := []string{"a", "b", "c"}
-	dts := []int{0, 0, 3, 5, 6, 10, 20, 50, -1, 25 * 36_000_000}
+	dts := []int{0, 0, 3, 5, 6, 10, 20, 50, -1, -3, 25 * 36_000_000, zeroTime}
 	nc := 1 + rng.Intn(3)
 	total := 2 + rng.Intn(4)
 	p := program{Clients: make([][]opSpec, nc), BlockCb: rng.Intn(4) == 0}
@@ -348,6 +368,13 @@ func TestCheck(t *testing.T) {
 			Prefix: []string{"start:c0:enq", "release:queue.enqueue.enter", "release:queue.loop.peeked", "release:queue.loop.signals", "release:queue.exec.enter", "release:queue.exec.popped"}},
 		{Clients: [][]opSpec{{{Op: "enq", Key: "a", Dt: 6}}, {{Op: "enq", Key: "a", Dt: 6000}}}, Advances: []int{1, 5}},
 		{Clients: [][]opSpec{{{Op: "enq", Key: "n", Dt: -1}, {Op: "enq", Key: "a", Dt: 5}}, {{Op: "enq", Key: "b", Dt: 0}}}, Advances: []int{6}},
+		// the timer of b has fired and the loop is on its way to pop b when an earlier, already due item a arrives: a runs first
+		{Clients: [][]opSpec{{{Op: "enq", Key: "b", Dt: 6}}, {{Op: "enq", Key: "a", Dt: -3}}}, Advances: []int{6},
+			Prefix: []string{"start:c0:enq", "release:queue.enqueue.enter", "release:queue.loop.peeked", "release:queue.loop.signals", "release:queue.loop.armed", "advance:6", "start:c1:enq", "release:queue.enqueue.enter"}},
+		{Clients: [][]opSpec{{{Op: "enq", Key: "b", Dt: 6}, {Op: "enq", Key: "c", Dt: 8}}, {{Op: "enq", Key: "a", Dt: 2}}}, Advances: []int{6, 3}},
+		// items whose scheduled time is the zero time.Time (an instant long past): due at once, and they replace like any other
+		{Clients: [][]opSpec{{{Op: "enq", Key: "a", Dt: zeroTime}}, {{Op: "enq", Key: "b", Dt: 5}}}, Advances: []int{6}},
+		{Clients: [][]opSpec{{{Op: "enq", Key: "a", Dt: 10}, {Op: "enq", Key: "a", Dt: zeroTime}}, {{Op: "enq", Key: "b", Dt: 5}}}, Advances: []int{6, 6}},
 		// an item more than a day ahead: nothing may run when the clock has moved 24 h, it runs after 25 h (1 h = 36e6 ticks)
 		{Clients: [][]opSpec{{{Op: "enq", Key: "a", Dt: 25 * 36_000_000}}, {{Op: "enq", Key: "b", Dt: 3}}}, Advances: []int{24 * 36_000_000, 35_000_000, 1_000_000}},
 	}
@@ -511,6 +538,8 @@ func selfTest(e *ev.Evidence) {
 		}
 		b.Ev("adv", tv.M{"now": n})
 		if drop != "cb" {
+			b.Ev("w_open", tv.M{})
+			b.Ev("w_close", tv.M{})
 			b.Ev("cbstart", tv.M{"id": 1})
 			b.Ev("cbend", tv.M{"id": 1})
 		}
